@@ -11,6 +11,6 @@ rsync -a --exclude .git --exclude '*.egg-info' --exclude __pycache__ /repo/ "$S"
 ( cd "$S" && PYTHONPATH="$S" /venv/bin/python -m pytest -q -x -p no:cacheprovider tests >"$S/suite.log" 2>&1 ) && SUITE=pass || SUITE=fail
 [ "$SUITE" = fail ] && tail -5 "$S/suite.log"
 ( cd "$S" && PYTHONPATH="$S" /venv/bin/python -c "import pytoniq_core,sys; assert pytoniq_core.__file__.startswith('$S'), pytoniq_core.__file__" ) || echo "WARNING: scratch copy not imported"
-VERIF_REPO="$S" /venv/bin/python /verif/run.py "$ID" --tier "$TIER" > "$S/check.log" 2>&1; RC=$?
+VERIF_OUT_DIR="$S/out" VERIF_REPO="$S" /venv/bin/python /verif/run.py "$ID" --tier "$TIER" > "$S/check.log" 2>&1; RC=$?
 grep -E "VIOLATION|signature=|KNOWN|HARNESS|cases," "$S/check.log" | head -12
 echo "SUITE=$SUITE CHECK_EXIT=$RC"
